@@ -153,7 +153,7 @@ def check(defs: List[bool], kw: List[bool], classes: List[bool], pending: int, d
     pre: len(defs) <= MAXD and len(kw) == (len(defs) if SYMKW else 0) and len(classes) <= MAXC and 0 <= pending <= 2 and case in CASES
     pre: _argsok(cps)
     pre: not (pending == 1 and ((len(classes) == 0 and DEEPC == 0) or (len(classes) > 0 and not classes[-1])))
-    pre: not (pending != 0 and (KIND not in ("function", "macro") or documented))
+    pre: not (pending != 0 and KIND not in ("function", "macro"))
     pre: not (KIND in ("endfunction", "endmacro") and len(defs) + DEEPD == 0)
     pre: not (KIND == "cpp_end_class" and len(classes) + DEEPC == 0)
     pre: not (KIND in ("cpp_attr", "cpp_member", "cpp_constructor") and len(classes) + DEEPC == 0)
